@@ -3,7 +3,7 @@
    transform clause, Proofs/Transforms.v).  Bounds and differences are extended reals, so every
    statement covers any mix of finite and infinite entries on either side. *)
 From Coq Require Import QArith List Bool.
-From Ropt Require Import Base.Num Model.ConstraintInfo Proofs.ConstraintInfo.
+From Ropt Require Import Base.Num Model.ConstraintInfo Model.Transforms Proofs.ConstraintInfo Proofs.Transforms.
 Import ListNotations.
 Open Scope Q_scope.
 
@@ -96,6 +96,18 @@ Theorem C13_inside_feasible : forall cfg x cons t, 0 <= t ->
   feasible (Some t) (info_of (create cfg x cons)) = true.
 Proof. exact inside_feasible. Qed.
 
+(* transforms: the constraint information computed on the validated (optimizer-domain) configuration at the
+   image of the point, mapped back with transform_from_optimizer (differences multiplied by the variable
+   scales / equation scaling / constraint scales, violations recomputed), equals -- family by family, entry
+   by entry, infinite entries included -- the information computed directly on the user's configuration *)
+Theorem C13_transform : forall n ss os nls cfg cfg' eqo x cons,
+  length x = n -> length ss = n -> length os = n -> positive ss -> positive nls -> ccfg_sized n cfg cons nls ->
+  ccfg_to_opt ss os nls cfg = Some (cfg', eqo) ->
+  created_eq (created_from_opt (Some ss) eqo (Some nls)
+                (create cfg' (to_opt ss os x) (option_map (fun_to_opt nls) cons)))
+             (create cfg x cons).
+Proof. exact constraint_info_invariant. Qed.
+
 (* non-vacuity: the input of the repaired defect (lower = [0,-inf], upper = [+inf,1], x = [-1,2]) *)
 Example C13_example :
   let cfg := {| v_lower := [Fin 0; NInf]; v_upper := [PInf; Fin 1]; c_linear := None; c_nonlinear := None |} in
@@ -118,3 +130,4 @@ Print Assumptions C13_outside_bound_detected.
 Print Assumptions C13_outside_linear_detected.
 Print Assumptions C13_outside_nonlinear_detected.
 Print Assumptions C13_inside_feasible.
+Print Assumptions C13_transform.
